@@ -89,24 +89,24 @@ func readCableLabsEbp(data []byte) (ebp *cableLabsEbp, err error) {
 		return nil, gots.ErrNoPayload
 	}
 
-	index := uint8(0)
+	index := 0
 	// has reports whether n more bytes can be read at index
-	has := func(n int) bool { return int(index)+n <= len(data) }
+	has := func(n int) bool { return index+n <= len(data) }
 
 	ebp.DataFieldTag = data[index]
-	index += uint8(1)
+	index += 1
 
 	ebp.DataFieldLength = data[index]
-	index += uint8(1)
+	index += 1
 
 	// Check if the data is as advertised
 	if ebp.DataFieldLength > 0 {
 		if len(data) >= 7 {
 			ebp.FormatIdentifier = binary.BigEndian.Uint32(data[index : index+4])
-			index += uint8(4)
+			index += 4
 
 			ebp.DataFlags = data[index]
-			index += uint8(1)
+			index += 1
 		} else {
 			return nil, gots.ErrInvalidEBPLength
 		}
@@ -117,7 +117,7 @@ func readCableLabsEbp(data []byte) (ebp *cableLabsEbp, err error) {
 			return nil, gots.ErrInvalidEBPLength
 		}
 		ebp.ExtensionFlags = data[index]
-		index += uint8(1)
+		index += 1
 	}
 
 	if ebp.SapFlag() {
@@ -125,7 +125,7 @@ func readCableLabsEbp(data []byte) (ebp *cableLabsEbp, err error) {
 			return nil, gots.ErrInvalidEBPLength
 		}
 		ebp.SapType = data[index]
-		index += uint8(1)
+		index += 1
 	}
 
 	if ebp.GroupingFlag() {
@@ -137,17 +137,17 @@ func readCableLabsEbp(data []byte) (ebp *cableLabsEbp, err error) {
 		groupExtFlag = data[index]&0x80 != 0
 		group = data[index] & 0x7F
 		ebp.Grouping = append(ebp.Grouping, group)
-		index += uint8(1)
+		index += 1
 
 		for groupExtFlag {
-			// the chain must end inside the data (and before the 8-bit index wraps)
-			if !has(1) || index == 0xFF {
+			// the chain must end inside the data
+			if !has(1) {
 				return nil, gots.ErrInvalidEBPLength
 			}
 			groupExtFlag = data[index]&0x80 != 0
 			group = data[index] & 0x7F
 			ebp.Grouping = append(ebp.Grouping, group)
-			index += uint8(1)
+			index += 1
 		}
 	}
 
@@ -156,10 +156,10 @@ func readCableLabsEbp(data []byte) (ebp *cableLabsEbp, err error) {
 			return nil, gots.ErrInvalidEBPLength
 		}
 		ebp.TimeSeconds = binary.BigEndian.Uint32(data[index : index+4])
-		index += uint8(4)
+		index += 4
 
 		ebp.TimeFraction = binary.BigEndian.Uint32(data[index : index+4])
-		index += uint8(4)
+		index += 4
 	}
 
 	if ebp.PartitionFlag() {
@@ -167,10 +167,10 @@ func readCableLabsEbp(data []byte) (ebp *cableLabsEbp, err error) {
 			return nil, gots.ErrInvalidEBPLength
 		}
 		ebp.PartitionFlags = data[index]
-		index += uint8(1)
+		index += 1
 	}
 
-	if end := int(ebp.DataFieldLength) + 2; int(index) < end {
+	if end := int(ebp.DataFieldLength) + 2; index < end {
 		if end > len(data) {
 			return nil, gots.ErrInvalidEBPLength
 		}
